@@ -143,6 +143,44 @@ def run(ctx):
     ctx.case(('mapset',))
     if sorted(ms.maps_by_id) != [3, 9] or ms.maps_by_id[3].pixels[2 + 128] != 3 or not ms.maps_by_id[9].is_locked:
         ctx.violation('map set replay', {'ids': sorted(ms.maps_by_id)}, key={'kind': 'mapset'})
+    # map histories: several packets for a few map ids with changing lock / tracking flags; the tracked
+    # state must equal an in-order replay written independently here
+    for hi in range(ctx.scale(60, 600)):
+        ms = MP.MapSet()
+        ref = {}
+        hist = []
+        for _ in range(rng.randrange(2, 9)):
+            mid = rng.choice([1, 2, 7])
+            width = rng.choice([0, 1, 2, 3])
+            height = rng.randrange(1, 4) if width else 0
+            ox, oy = rng.randrange(0, 120), rng.randrange(0, 120)
+            px = bytes(rng.randrange(1, 256) for _ in range(width * height))
+            locked, tracking, scale = rng.random() < 0.5, rng.random() < 0.5, rng.randrange(0, 5)
+            p = MP()
+            p.map_id, p.scale, p.icons = mid, scale, []
+            p.is_tracking_position, p.is_locked = tracking, locked
+            p.width, p.height = width, height
+            p.offset = (ox, oy) if width else None
+            p.pixels = px if width else None
+            hist.append((mid, width, height, ox, oy, locked, tracking, scale))
+            try:
+                p.apply_to_map_set(ms)
+            except Exception as e:
+                ctx.violation('map history: apply_to_map_set raised %r' % (e,), {'history': hist}, key={'maphist': hist})
+                break
+            st = ref.setdefault(mid, {'px': bytearray(128 * 128)})
+            for i, b in enumerate(px):
+                st['px'][(ox + i % width) + 128 * (oy + i // width)] = b
+            st.update(locked=locked, tracking=tracking, scale=scale)
+        ctx.case(('maphist', tuple(hist)))
+        for mid, st in ref.items():
+            m = ms.maps_by_id.get(mid)
+            if m is None or bytes(m.pixels) != bytes(st['px']) or (m.is_locked, m.is_tracking_position, m.scale) != \
+                    (st['locked'], st['tracking'], st['scale']):
+                ctx.violation('map %d after a %d-packet history differs from an in-order replay (pixels equal: %s)'
+                              % (mid, len(hist), m is not None and bytes(m.pixels) == bytes(st['px'])),
+                              {'history': hist}, key={'maphist': hist})
+                break
     # ------------------------------------------------------------------ position and look
     PPL = clientbound.play.PlayerPositionAndLookPacket
     lines, impl = [], []
@@ -308,14 +346,17 @@ def run(ctx):
                           key={'recclass': c.__name__})
     V = U.Vector
     P = T.Position
-    pts = [(0, 0, 0), (1, -2, 3), (2 ** 40, -7, 5), (1.5, 2.25, -0.5)]
+    pts = [(0, 0, 0), (1, -2, 3), (2 ** 40, -7, 5), (1.5, 2.25, -0.5), (3, 7, 9), (2 ** 53 + 1, 49, -49)]
     for a, b in itertools.product(pts, repeat=2):
         for cls in (V, P):
             va, vb = cls(*a), V(*b)
             ctx.case(('vec', cls.__name__, a, b))
             res = [(va + vb, tuple(x + y for x, y in zip(a, b))), (va - vb, tuple(x - y for x, y in zip(a, b))),
                    (-va, tuple(-x for x in a)), (va * 3, tuple(x * 3 for x in a)), (3 * va, tuple(3 * x for x in a)),
-                   (va // 2, tuple(x // 2 for x in a)), (va / 2, tuple(x / 2 for x in a))]
+                   (va // 2, tuple(x // 2 for x in a)), (va / 2, tuple(x / 2 for x in a)),
+                   (va / 10, tuple(x / 10 for x in a)), (va / 3, tuple(x / 3 for x in a)),
+                   (va // 7, tuple(x // 7 for x in a)), (va * 0.1, tuple(x * 0.1 for x in a)),
+                   (va / 0.3, tuple(x / 0.3 for x in a))]
             for got, want in res:
                 if tuple(got) != want or type(got) is not cls:
                     ctx.violation('vector arithmetic is not component-wise / type-preserving',
